@@ -536,7 +536,14 @@ def run(repo: Repo, R: Report) -> None:
     # ------------------------------------------------------------------ D2 key-order insensitivity
     r_ord = R.rule("C04-D2-key-order-insensitive", "every value that reaches a hash comes from json.dumps(sort_keys=True) or from a normaliser that rebuilds dicts over sorted keys; no list inside a hashed structure inherits mapping or set order", 10)
     n_sites = 0
-    for rel, qn, f in sl + [(ORCH, "SemantivaOrchestrator.execute", ex)]:
+    # the slice and every package function it reaches (a digest fed piecewise by an extracted / new helper is a hashing site too)
+    d2_funcs = sl + [(ORCH, "SemantivaOrchestrator.execute", ex)]
+    d2_seen = {id(f) for _rel, _qn, f in d2_funcs} | {id(n) for _rel, _qn, f in d2_funcs for n in ast.walk(f) if isinstance(n, FuncNode)}
+    for m_c, f_c in _closure_of(repo, sl):
+        if id(f_c) not in d2_seen and isinstance(f_c, FuncNode):
+            d2_seen.add(id(f_c))
+            d2_funcs.append((m_c.rel, qualname_of(f_c), f_c))
+    for rel, qn, f in d2_funcs:
         mod_f = repo.module(rel)
         for c in calls_in(f):
             d = _qualified(mod_f, c)
@@ -588,6 +595,7 @@ def run(repo: Repo, R: Report) -> None:
                 R.violation(r_ord, rel, qn, norm(it)[:70], "iteration over a set inside the identity slice: order depends on PYTHONHASHSEED", getattr(it, "lineno", f.lineno))
 
     sorts_of_sets_are_total(repo, R, r_ord, sl)
+    derived_node_lists_order(repo, R)
     no_container_rendering(repo, R, sl)
     no_code_object_text_in_sweep_definition(repo, R)
     declared_scalars_type_fixed(repo, R)
@@ -1405,7 +1413,59 @@ def _dumps_feeding(f: ast.AST, arg: Optional[ast.AST], depth: int = 0, mod=None)
 # round 3: D1b ambient values upstream of the identities, D2b textual rendering of containers, D2 total orders
 # ---------------------------------------------------------------------------
 MESSAGE_METHODS = {"debug", "info", "warning", "warn", "error", "exception", "critical", "log"}
-DISPLAY_ROOTS = {(BUILDER, "build_inspection_payload"), (BUILDER, "_build_sweep_payload"), (BUILDER, "_collect_required_context_keys")}
+
+
+def _hashes_directly(mod, f: ast.AST) -> bool:
+    return any(_qualified(mod, c) in ("hashlib.sha256", "hashlib.sha1", "hashlib.md5", "hashlib.blake2b", "uuid.uuid5", "uuid.uuid3") or _is_hasher_update(f, c, mod) for c in calls_in(f, include_nested=True))
+
+
+def _reaches_hash(repo: Repo, tm, tf: ast.AST) -> bool:
+    """Does *tf* (or a package function it calls, at any depth) compute a digest?"""
+    cache = repo.__dict__.setdefault("_c04_reaches_hash", {})
+    if id(tf) not in cache:
+        cache[id(tf)] = any(_hashes_directly(m, f) for m, f, _p in repo.call_graph_closure([(tm, tf)]).values() if isinstance(f, FuncNode))
+    return cache[id(tf)]
+
+
+def display_roots(repo: Repo) -> Set[Tuple[str, str]]:
+    """The functions of the inspection builder that only shape what the payload *shows* (by role, not by name): the public
+    entry point itself, and every function of its file it calls whose result feeds no argument of a digest-computing
+    call there and that (with the functions of the file it calls) computes no digest itself - today the builder of the
+    sanitised sweep block and the collector of the required context keys."""
+    cache = repo.__dict__.setdefault("_c04_display_roots", {})
+    if "v" in cache:
+        return cache["v"]
+    out: Set[Tuple[str, str]] = set()
+    mod = repo.module(BUILDER)
+    for entry in PUBLIC_ENTRIES[BUILDER]:
+        f0 = repo.maybe_func(BUILDER, entry)
+        if f0 is None:
+            raise AnalysisError(f"identity slice anchor vanished: {BUILDER}:{entry}")
+        out.add((BUILDER, entry))
+        flow = flow_of(repo, BUILDER, entry, inline=False)
+        fn = flow.fn
+        local: List[Tuple[ast.Call, ast.AST]] = []  # calls to functions of the file
+        feeding: Set[int] = set()  # calls whose value feeds an argument of a digest-computing call
+        for c in calls_in(fn):
+            try:
+                targets = [(tm, tf) for tm, tf in repo.resolve_call(mod, c) if isinstance(tf, FuncNode)]
+            except AnalysisError:
+                targets = []
+            if _qualified(mod, c) in ("hashlib.sha256", "uuid.uuid5") or any(_reaches_hash(repo, tm, tf) for tm, tf in targets):
+                for a in list(c.args) + [kw.value for kw in c.keywords]:
+                    feeding |= {id(k) for k in flow.feeds(a)[1]}
+            for tm, tf in targets:
+                if tm.rel == BUILDER and tm.defs.get(qualname_of(tf)) is tf:
+                    local.append((c, tf))
+        for c, tf in local:
+            if any(id(c2) in feeding for c2, tf2 in local if tf2 is tf):
+                continue
+            same_file = [f for m, f, _p in repo.call_graph_closure([(mod, tf)], stop=lambda m, n: m.rel != BUILDER).values() if m.rel == BUILDER and isinstance(f, FuncNode)]
+            if any(_hashes_directly(mod, f) for f in same_file):
+                continue
+            out.add((BUILDER, qualname_of(tf)))
+    cache["v"] = out
+    return out
 
 
 def _message_context(n: ast.AST, fn: ast.AST) -> bool:
@@ -1609,9 +1669,31 @@ def _dumps_param(repo: Repo, mod, c: ast.Call) -> Optional[ast.AST]:
         if isinstance(tf, FuncNode) and tf.args.args:
             p = tf.args.args[0].arg
             for k in calls_in(tf):
-                if _qualified(tm, k) == "json.dumps" and k.args and isinstance(k.args[0], ast.Name) and k.args[0].id == p:
+                if _qualified(tm, k) == "json.dumps" and k.args and isinstance(k.args[0], ast.Name) and (k.args[0].id == p or _element_of_param(tf, k.args[0].id, p)):
                     return c.args[0]
     return None
+
+
+def _element_of_param(tf: ast.AST, name: str, p: str) -> bool:
+    """*name* is bound, in *tf*, only as the loop / comprehension variable over the parameter *p* (directly or under
+    enumerate): json.dumps(name) is applied element by element - it rejects an element exactly when json.dumps of the
+    whole sequence rejects it."""
+    binders = 0
+    for n in ast.walk(tf):
+        if isinstance(n, (ast.For, ast.comprehension)):
+            tg, it = n.target, n.iter
+            under_enum = isinstance(it, ast.Call) and isinstance(it.func, ast.Name) and it.func.id == "enumerate" and it.args
+            src = it.args[0] if under_enum else it
+            var = tg.elts[1] if under_enum and isinstance(tg, ast.Tuple) and len(tg.elts) == 2 else None if under_enum else tg
+            if isinstance(var, ast.Name) and var.id == name:
+                if not (isinstance(src, ast.Name) and src.id == p):
+                    return False
+                binders += 1
+            elif any(isinstance(x, ast.Name) and x.id == name for x in ast.walk(tg)):
+                return False
+        elif isinstance(n, ast.Name) and n.id == name and isinstance(n.ctx, ast.Store) and not isinstance(getattr(n, "_parent", None), (ast.For, ast.comprehension, ast.Tuple)):
+            return False
+    return binders > 0
 
 
 def _json_failed_fallback(repo: Repo, mod, fn: ast.AST, site: ast.AST, x_text: str) -> bool:
@@ -1695,7 +1777,7 @@ def no_container_rendering(repo: Repo, R: Report, sl: List[Tuple[str, str, ast.A
     from ..cfg import CFG
 
     r = R.rule("C04-D2b-no-container-text-in-hashed-value", "in the functions that produce hashed values (canonical node, preprocessor metadata, domain signatures, id functions and what they call) a value is turned into text by repr()/ascii()/%r/!r only where it cannot be a mapping, set or list - it is a scalar on every path there (isinstance guard) or containers are routed elsewhere first (a rendering that is only the fallback after json.dumps failed on the same value is still such a rendering: reported under its own label) - and by str()/format()/f-string only where it has not just been proven to be a non-scalar: the repr of a mapping follows insertion (YAML key) order and the repr of a set follows the hash seed, and no later json.dumps(sort_keys=True) can reorder text", 12)
-    hashed = [(rel, qn, f) for rel, qn, f in sl if not any(rel == drel and (qn == dqn or qn.startswith(dqn + ".")) for drel, dqn in DISPLAY_ROOTS)]
+    hashed = [(rel, qn, f) for rel, qn, f in sl if not any(rel == drel and (qn == dqn or qn.startswith(dqn + ".")) for drel, dqn in display_roots(repo))]
     seen: Set[int] = set()
     for m, f0 in _closure_of(repo, hashed):
         for f in [n for n in ast.walk(f0) if isinstance(n, FuncNode)]:
@@ -2618,6 +2700,89 @@ def sweep_list_order(repo: Repo, R: Report, rule: str) -> None:
                     f"a list hashed into the node semantic id inherits {'; '.join(sorted(set(bad)))[:200]}: reordering the keys of the sweep's mapping (or another hash seed) changes config_id", getattr(seq, "lineno", bfn.lineno))
     if n == 0:
         raise AnalysisError("no list found inside the published sweep definition (dependencies.required_external_parameters / context_keys expected)")
+
+
+# ---------------------------------------------------------------------------
+# round 12: D2e - what node preprocessing adds to a node mapping (on its way to the canonicaliser) has no list in the
+# key order of a configuration mapping
+# ---------------------------------------------------------------------------
+def _generated_class_locals(repo: Repo, rel: str, flow: Flow) -> Dict[int, str]:
+    """{id of a member call `<x>.<m>(..)`: x} for the calls of *flow*'s function whose receiver is a local that holds
+    what a function of the sweep factory module returned (the generated sweep class)."""
+    mod = repo.module(rel)
+    out: Dict[int, str] = {}
+    for c in calls_in(flow.fn):
+        if not (isinstance(c.func, ast.Attribute) and isinstance(c.func.value, ast.Name)) or c.func.value.id in flow.params:
+            continue
+        try:
+            leaves = flow.origins(c.func.value)
+        except AnalysisError:
+            continue
+        for root, rest in leaves:
+            if rest or not isinstance(root, ast.Call):
+                continue
+            try:
+                targets = repo.resolve_call(mod, root)
+            except AnalysisError:
+                targets = []
+            if any(tm.rel == SWEEP for tm, _tf in targets):
+                out[id(c)] = c.func.value.id
+    return out
+
+
+def derived_node_lists_order(repo: Repo, R: Report) -> None:
+    """C04-D2e: the node mapping node preprocessing returns is what the canonicaliser copies its fields from (ports,
+    parameters, derive ..) into the hashed canonical node; json.dumps(sort_keys=True) orders mapping keys but cannot
+    reorder a list.  So every list the preprocessing step itself puts into the returned mapping is sorted, written down
+    in the program, or in an order the configuration text cannot change - never the key order of a configuration
+    mapping or a set, also not through a method of the generated sweep class (whose lists follow the key order of
+    `variables`)."""
+    r = R.rule("C04-D2e-derived-node-lists-order", "no list that node preprocessing puts into the node mapping it hands to the canonicaliser follows the key order of a configuration mapping (directly, or through a method / attribute of the generated sweep class) or the iteration order of a set: the canonical node copies node fields verbatim and sort_keys cannot reorder a list, so the order in which the keys of `variables:` / `parameters:` are written would enter the node UUID, pipeline id, semantic id and config id", 1)
+    _builder0, factories0 = sweep_definition_anchors(repo)
+    for entry in PUBLIC_ENTRIES[PREP]:
+        f0 = repo.func(PREP, entry)
+        flow = flow_of(repo, PREP, entry)
+        fn = flow.fn
+        members = _generated_class_locals(repo, PREP, flow)
+        n = 0
+        seen: Set[int] = set()
+
+        def collect(x: ast.AST, depth: int, out: List[ast.AST]) -> None:
+            if id(x) in seen or depth > 5 or not isinstance(x, ast.expr):
+                return
+            seen.add(id(x))
+            try:
+                top = flow.origins(x)
+                below = flow.origins(x, (ANY,))
+            except AnalysisError:
+                return
+            for root, rest in top:
+                if not rest and (_is_sequence_like(root) or id(root) in members or isinstance(root, (ast.Set, ast.SetComp))) and not any(root is o for o in out):
+                    out.append(root)
+            for root, rest in sorted(below, key=lambda l: (getattr(l[0], "lineno", 0), getattr(l[0], "col_offset", 0))):
+                if not rest:
+                    collect(root, depth + 1, out)
+
+        for ret in [x for x in walk_no_nested(fn) if isinstance(x, ast.Return) and x.value is not None]:
+            seqs: List[ast.AST] = []
+            collect(ret.value, 0, seqs)
+            for seq in seqs:
+                n += 1
+                if id(seq) in members:
+                    recv = members[id(seq)]
+                    tags: Set[Tag] = {("method", recv, seq.func.attr, "direct")}
+                    bad, _shown, rest = _class_member_orders(repo, factories0, tags, {recv})
+                else:
+                    tags = order_of(repo, PREP, flow, seq)
+                    member_tags = {t for t in tags if t[0] == "method"}
+                    bad, _shown, rest = _class_member_orders(repo, factories0, member_tags, {t[1] for t in member_tags}) if member_tags else ([], set(), set())
+                    rest = set(rest) | (tags - member_tags)
+                cm = config_mappings(f0)
+                bad = list(bad) + [_show_tag(t) for t in rest if t[0] in ("set", "unknown") or (t[0] in ("param", "attr") and (t[-1] == "view" or (t[0] == "param" and t[1] in cm and t[-1] == "direct")))]
+                R.check(not bad, r, PREP, entry, f"{norm(seq)[:70]} [list inside the returned node mapping]",
+                        f"a list inside the node mapping handed to the canonicaliser inherits {'; '.join(sorted(set(bad)))[:220]}: the canonical node copies the field verbatim and sort_keys cannot reorder a list, so reordering the keys of that mapping in the YAML changes node UUID, pipeline id, semantic id and config id on all three paths", getattr(seq, "lineno", f0.lineno))
+        if n == 0:
+            R.ok(r, PREP, entry, f"{entry}: the returned node mapping holds no list built by the preprocessing step", "", f0.lineno)
 
 
 # ---------------------------------------------------------------------------
